@@ -258,7 +258,20 @@ unsafe impl GlobalAlloc for Shadow {
         if !p.is_null() {
             // fresh memory is filled with a pattern so that code treating never-written bytes as a
             // value sees neither zeroes nor a stale valid-looking object
-            std::ptr::write_bytes(p, 0xA5, layout.size());
+            match FILL.load(Relaxed) {
+                0 => std::ptr::write_bytes(p, 0xA5, layout.size()),
+                // never-written memory that looks like the word 1 (a "sole owner" count, a length of one) ...
+                1 => {
+                    std::ptr::write_bytes(p, 0, layout.size());
+                    let mut a = (p as usize + 7) & !7;
+                    while a + 8 <= p as usize + layout.size() {
+                        (a as *mut usize).write(1);
+                        a += 8;
+                    }
+                }
+                // ... or like zero / null
+                _ => std::ptr::write_bytes(p, 0, layout.size()),
+            }
             // a block the system hands out again can no longer be "quarantined" in our books
             if let Some(e) = s.find(p as usize) {
                 e.state = 3;
@@ -349,6 +362,12 @@ unsafe impl GlobalAlloc for Shadow {
 // control surface used by the engines
 
 /// Switch the shadow allocator on (only honoured in native, non-sanitizer modes).
+static FILL: std::sync::atomic::AtomicU8 = std::sync::atomic::AtomicU8::new(0);
+/// What fresh tracked blocks look like before the library writes them: 0 = 0xA5 bytes, 1 = words of value 1, 2 = zeroes.
+pub fn set_fill(mode: u8) {
+    FILL.store(mode, Relaxed);
+}
+
 pub fn enable(on: bool) {
     MODE.store(if on { 1 } else { 0 }, Relaxed);
 }
